@@ -480,6 +480,29 @@ def gen_C02(rng, ci, tier):
             s.add("eqstr", SD(a), txt)
             s.add("eqstr", SD(a), codes_to_bytes(ci, other))
         out.append(s.ops)
+    # sequences that differ in exactly ONE BIT of one symbol (where the flipped code is a symbol): at
+    # lengths around word boundaries every bit of the last symbols, and a random position elsewhere -
+    # an equality or a hash that ignores some bits must show here
+    blens = sorted({l for l in boundary_lengths(ci.bits) if 1 <= l <= 3 * ci.per_word + 2} | {1, 2, ci.per_word + 1})
+    for n in blens:
+        x = rand_codes(rng, ci, n)
+        s = Script(ci)
+        a = s.new_from_codes(rng, x, how="collect")
+        cnt = 0
+        for p in sorted({n - 1, max(0, n - 2), rng.randrange(n)}):
+            for j in range(ci.bits):
+                c2 = x[p] ^ (1 << j)
+                if c2 not in ci.items:
+                    continue
+                y = list(x); y[p] = c2
+                d = s.embed(rng, y)
+                s.add("eq", 0, SD(a, [(5, 0, 0)]), d)
+                s.add("eq", 3, SD(a), d)
+                s.add("hasheq", SD(a), d)
+                s.add("mapget", a, d)
+                cnt += 1
+        if cnt:
+            out.append(s.ops)
     # two windows of the SAME parent (same length, different or equal content, close offsets)
     for it in range(scale(tier, 60, 1200)):
         s = Script(ci)
@@ -731,6 +754,10 @@ def gen_C08(rng, ci, tier):
         K = pick_K(rng, grid[w])
         # construction from a slice succeeds exactly when the length is K
         n = rng.choice([K, K, K - 1, K + 1, 0, rng.randint(0, K + 3)])
+        if rng.random() < 0.25:
+            # too long by a "round" amount: a length check done in a narrow integer, in words or in
+            # bytes must not let these through (K + 2^j bits for j = 3..10, in symbols)
+            n = K + rng.choice([8, 16, 32, 64, 128, 256, 512, 1024]) // ci.bits * rng.choice([1, 1, 2])
         n = max(n, 0)
         codes = rand_codes(rng, ci, n)
         d = s.embed(rng, codes)
@@ -752,7 +779,7 @@ def gen_C08(rng, ci, tier):
         s.add("kobs")
         s.add("keq", 0, d3)
         # from text: right length and valid, wrong length, invalid byte
-        n2 = rng.choice([K, K, K, K - 1, K + 1])
+        n2 = rng.choice([K, K, K, K - 1, K + 1, K + rng.choice([8, 16, 32, 64, 128, 256, 512]) // ci.bits])
         txt = [rng.choice(ci.valid_bytes) for _ in range(max(n2, 0))]
         if rng.random() < 0.3 and txt:
             bad = [b for b in ci.invalid_bytes if b < 128]
